@@ -51,7 +51,7 @@ func vpBigCheck(tag string, seg *Segment, docs []*vpDoc, targets []uint64) {
 	exp := vpBuildExpect(docs, nil)
 	d, err := seg.Dictionary("a")
 	vpMust(err, "Dictionary")
-	for _, term := range []string{"x", "r"} {
+	for _, term := range []string{"x", "r", ""} {
 		pl, err := d.PostingsList([]byte(term), nil, nil)
 		vpMust(err, "PostingsList")
 		vpAssert(pl.Count() == uint64(len(exp.post["a"][term])), tag+": Count of a large list")
@@ -130,6 +130,15 @@ func vpH_C01_bigterm() {
 func vpH_C02_bigmerge() {
 	a := vpBigDocs(600, map[int]bool{5: true})
 	b := vpBigDocs(600, nil)
+	if vpChoice("empty-term", 2) == 1 {
+		// the empty term, the first term of the field, in (almost) every document:
+		// a large list written right after the field switch
+		for d, doc := range append(append([]*vpDoc(nil), a...), b...) {
+			if d%50 != 7 {
+				doc.fields[0].terms = append(doc.fields[0].terms, &vpTerm{term: []byte(""), freq: 1 + d%3})
+			}
+		}
+	}
 	sa, sb := vpBuild(a, 1025), vpBuild(b, []uint32{1025, 1024}[vpChoice("modeB", 2)])
 	dr := roaring.New()
 	var surv []*vpDoc
